@@ -31,6 +31,13 @@ def gds_layout(variant):
         el('path', layer=2, datatype=1, pathtype=4, width=500, bgnextn=250, endextn=-100, xy=[(0, 0), (5000, 0), (5000, 3000)],
            syn=dict(xy_split=(1, 2)) if variant == 'split_xy' else {}),
         el('path', layer=2, datatype=1, xy=[(0, 0), (7, 7)]),
+        # optional records of one element must not leak into the next, also when the first one is filtered out by its tag:
+        # a wide path, then paths on OTHER tags without WIDTH / PATHTYPE / extensions, then a text without presentation fields
+        el('path', layer=12, datatype=3, pathtype=2, width=800, xy=[(0, 0), (0, 4000)]),
+        el('path', layer=13, datatype=0, xy=[(100, 100), (900, 100), (900, 700)]),
+        el('path', layer=12, datatype=3, pathtype=4, width=-60, bgnextn=30, endextn=40, xy=[(0, 0), (300, 0)]),
+        el('path', layer=14, datatype=1, xy=[(5, 5), (50, 5)]),
+        el('boundary', layer=13, datatype=0, xy=[(0, 0), (30, 0), (30, 30)]),
         el('text', layer=3, texttype=2, font=1, vjust=2, hjust=1, pathtype=1, width=-40, reflect=True, mag=Fraction(5, 2), angle=Fraction(30), xy=(1000, 2000), string=b'hello'),
         el('sref', sname=leaf['name'], reflect=True, mag=Fraction(2), angle=Fraction(90), xy=(10000, 5000), props=[(7, b'rp')]),
         el('aref', sname=leaf['name'], cols=2, rows=3, xy=[(0, 0), (8000, 0), (0, 12000)]),
